@@ -5,25 +5,29 @@ from .. import core, gen, ref, pilgen as PG
 MODULES = ['DsdVerif.Props.C12']
 GEN_FILES = ['Grammars']
 THEOREM_NAMES = ['kernelTokens_total', 'resolve_kernel_inverse', 'resolve_kernel_structure', 'complementary_rotate', 'kernel_all_rotations',
-                 'compName_involutive']
+                 'compName_involutive', 'kernel_text_roundtrip', 'kernel_text_all_rotations', 'resolveKernel_budget']
 THEOREMS = ['Dsd.C12.' + t for t in THEOREM_NAMES]
 ASSUMPTIONS = [
     'resolve_kernel_loops and kernel_string are hand-modelled at token level (Model/Kernel.lean, Model/CplxObject.lean); the '
     'character level goes through the model of pyparsing over the regenerated PIL grammar (correspondence with the real parser)',
 ]
 MANIFEST = {
-    'text': 'Full at token level, correspondence-tied at character level. resolve_kernel_inverse: for every aligned, balanced, '
+    'text': 'Full on the model, at token AND character level. kernel_text_roundtrip: the text `name = kernel_string(seq, sst)` parses '
+            '(model of pyparsing over the regenerated grammar) to the kernel-complex statement whose token forest the reader\'s '
+            'translation maps back to exactly (seq, sst) - for every identifier name and every aligned, balanced, domain-level '
+            'complementary description within the recursion budget; kernel_text_all_rotations: the same in every rotation. '
+            'resolve_kernel_inverse: for every aligned, balanced, '
             'domain-level-complementary description - any nesting depth, any number of strands, empty loops - the reader\'s translation '
             'of the kernel token forest returns exactly (sequence, structure); resolve_kernel_structure (without complementarity the '
             'structure is still exact and only closing names may differ); complementary_rotate and kernel_all_rotations (the round trip '
             'holds in every rotation, for names whose complement operation is an involution: at most one trailing star - a '
             'machine-checked counterexample with a double star is kept in the file); kernelTokens_total; compName_involutive. The '
-            'character level (kernel_string text -> grammar -> token forest) goes through the model of pyparsing over the regenerated '
-            'grammar (see C13 kernel_rt when listed there) and is compared with the real parser; the object-level clause (same singleton) '
-            'is decided on the real reader for every complementary complex up to a bounded size in every rotation.',
-    'note': 'Names with two trailing stars are outside the property (complement is not an involution on them); character-level fidelity '
-            'rests on the correspondence with pyparsing.',
-    'technique': 'Lean 4 joint invariant over the kernel stack machine and the bracket matcher; correspondence check through the grammar model; reader oracle',
+            'model of pyparsing is compared with the real parser on the same texts; the object-level clause (reading the kernel string '
+            'back under the same name yields the same singleton) composes this with C14.read_kernels_sigma / read_pil_kernels_text on '
+            'the model and is decided on the real reader for every complementary complex up to a bounded size in every rotation.',
+    'note': 'Names with two trailing stars are outside the property (complement is not an involution on them); patterns deeper than the '
+            'recursion budget (1000) are excluded with a kernel-checked counterexample; pyparsing itself is modelled, tied by correspondence.',
+    'technique': 'Lean 4 joint invariant over the kernel stack machine and the bracket matcher, composed with symbolic execution of the grammar model; correspondence check; reader oracle',
 }
 
 NAMES = ['a', 'b', 'c1', 't_2', 'x-y', '12', 'B', 'e5', 'inf', 'i', 'M', '_', 't-', '-h', '-', 'x--2', '-_-']
